@@ -787,6 +787,9 @@ func Request(t *rapid.T, tb model.TableSpec, cfg Cfg) model.ReqSpec {
 	if req.Body == "" && chance(t, "zerocl", 20) {
 		req.ZeroCL = true
 	}
+	if req.Body != "" && chance(t, "chunked", 12) {
+		req.Chunked = true
+	}
 	// a header may have been added twice by the cond flip; keep the first occurrence only
 	seen := map[string]bool{}
 	var hs []model.H
